@@ -500,6 +500,10 @@ def enumerate_cases(tier, seed):
                 for steps in (1, 2):
                     cases.append({"part": "model", "det": kind, "file": fname, "pos": pos, "steps": steps,
                                   "ext": ".asdf"})
+    for kind in mk.DET_TYPES:
+        for fname in ("F2d", "F3d", "Fgrp"):
+            for steps in (1, 2, 3):
+                cases.append({"part": "savemodel", "det": kind, "file": fname, "steps": steps, "ext": ".asdf"})
     # concurrent saves (controlled scheduler, scheduling points at the file-system calls)
     thorough = tier == "thorough"
     for kind in (mk.DET_TYPES if thorough else ("ccd", "mkid")):
@@ -518,7 +522,8 @@ def expected_size(tier, seed):
         else:
             m = n_combos_near(kind, k)
         n += m * len(formats())
-    return n + len(mk.DET_TYPES) * len(MODEL_FILES) * len(POSITIONS) * 2 + (len(mk.DET_TYPES) if tier == "thorough" else 2) + 1
+    return n + len(mk.DET_TYPES) * len(MODEL_FILES) * len(POSITIONS) * 2 + (len(mk.DET_TYPES) if tier == "thorough" else 2) + 1 \
+        + len(mk.DET_TYPES) * 3 * 3
 
 
 # ------------------------------------------------------------------ part roundtrip
@@ -601,6 +606,25 @@ def m_fill(detector, combo=None, salt=0.0):
     if detector.image._array is not None:
         other = {"uint8": "uint16", "uint16": "uint32", "uint32": "uint16", "uint64": "uint16"}[str(detector.image.dtype)]
         detector.image.array = (detector.image.array % 60000).astype(other)
+
+
+def m_fill_step(detector, combo=None, salt=0.0):
+    """model: like m_fill (without the type changes), with content that differs from one readout step to the next"""
+    fill_containers(detector, dict(combo or {}), salt=float(salt) + 7.0 * int(detector.pipeline_count))
+
+
+def m_check_saved(detector, filename="", tag=""):
+    """model placed after `save_detector`: what the file holds NOW (read back with Detector.load) versus the running
+    detector's containers at this step"""
+    rec = {"tag": tag, "step": int(detector.pipeline_count), "exists": os.path.exists(filename)}
+    if rec["exists"]:
+        try:
+            loaded = type(detector).load(filename)
+            rec["diff"] = [[p, _short(a, 80), _short(b, 80)] for p, a, b in
+                           diff(snap_containers(detector), snap_containers(loaded))][:3]
+        except Exception as e:  # noqa: BLE001
+            rec["error"] = f"{type(e).__name__}: {str(e)[:200]}"
+    OBSERVED.append(rec)
 
 
 def m_inplace(detector, bucket="signal"):
@@ -844,7 +868,56 @@ def run_race(case):
             "outcome": {"schedules": stats["executions"], "max_points": stats["points"], "distinct_outcomes": len(outcomes)}}
 
 
+def run_savemodel(case):
+    """the save_detector model inside a pipeline of 1-3 readouts: after the model ran at step i the file exists and holds
+    the running detector as it is at step i (a checkpoint taken at every step, readable by a later model of the same step)"""
+    import pyxel
+
+    kind, fname, steps = case["det"], case["file"], case["steps"]
+    spec = MODEL_FILES[fname]
+    combo = {a: v for a, v in spec.items() if a in axes_for(kind) and not a.startswith("_")}
+    viol = []
+    tag = f"{kind} content={fname} save_detector in a pipeline of {steps} readout(s)"
+
+    def bad(code, step, what):
+        viol.append(({"part": "savemodel", "code": code, "step": "last" if step == steps - 1 else "earlier"},
+                     f"{tag}: {what}"))
+
+    d = tempfile.mkdtemp(prefix="vp_")
+    try:
+        path = os.path.join(d, f"checkpoint{_seed()}.asdf")
+        running = build_detector(kind, "all")
+        groups = {"photon_collection": [("props.c18_save_load.m_fill_step", "fill", {"combo": combo, "salt": 20.0})],
+                  "charge_generation": [("pyxel.models.save_detector", "save_detector", {"filename": path})],
+                  "charge_collection": [("props.c18_save_load.m_check_saved", "check", {"filename": path, "tag": "saved"})]}
+        del OBSERVED[:]
+        try:
+            pyxel.run_mode(mk.exposure([float(i + 1) for i in range(steps)]), running, mk.pipeline(groups),
+                           with_inherited_coords=True)
+        except Exception as e:  # noqa: BLE001
+            bad("run-failed", steps - 1, f"the run raised {type(e).__name__}: {str(e)[:300]}")
+            return {"viol": viol, "sig": cfgx.sig(["savemodel", kind, fname, steps]), "nontrivial": False}
+        recs = [o for o in OBSERVED if o.get("tag") == "saved"]
+        if len(recs) != steps:
+            bad("probe-count", steps - 1, f"{len(recs)} probe records, expected {steps}")
+        for o in recs:
+            if not o["exists"]:
+                bad("not-saved", o["step"], f"after save_detector ran at step {o['step']} the file does not exist")
+            elif o.get("error"):
+                bad("unreadable", o["step"], f"the file written at step {o['step']} cannot be loaded: {o['error']}")
+            elif o.get("diff"):
+                p0, a0, b0 = o["diff"][0]
+                bad("stale-or-wrong", o["step"], f"the file read back at step {o['step']} differs from the running detector, "
+                    f"e.g. {p0}: detector {a0} != file {b0}")
+    finally:
+        shutil.rmtree(d, ignore_errors=True)
+    return {"viol": viol, "sig": cfgx.sig(["savemodel", kind, fname, steps]), "nontrivial": True, "n": steps,
+            "outcome": {"violations": len(viol)}}
+
+
 def run_case(case):
+    if case["part"] == "savemodel":
+        return run_savemodel(case)
     if case["part"] == "roundtrip":
         return run_roundtrip(case)
     if case["part"] == "race":
